@@ -183,7 +183,13 @@ def _gen_block(np, r, i):
                 N = np.sqrt(np.outer(bd, bd)) + 0.05 * max(bd.max(), 1e-3 * (me * wn).max())
                 U = r.uniform(0.3, 1.0, (nel, nel)) * r.choice([-1.0, 1.0], (nel, nel))
                 U = np.triu(U, 1)
-                U = U + U.T
+                if (i // 16) % 3 == 1:
+                    # one-way damping coupling (a follower / sensor equation): rows with
+                    # off-diagonal terms whose columns have none, or the other way round
+                    if (i // 48) % 2:
+                        U = U.T.copy()
+                else:
+                    U = U + U.T
                 Bel = Bel + 0.3 * N * U
         else:
             P = _spd_factor(r, nel)
@@ -961,6 +967,7 @@ def _build(sh, ode, cls, s, case, tags, **kw):
 
 
 _FORDER = [0]
+_HELD = {}
 
 
 def _fsolve(sh, obj, F, freq, incrb, rfdo, case, tags, where, singular_ok=False):
@@ -978,6 +985,16 @@ def _fsolve(sh, obj, F, freq, incrb, rfdo, case, tags, where, singular_ok=False)
             warnings.simplefilter("ignore")
             with np.errstate(all="ignore"):
                 out = obj.fsolve(Fin, fin, incrb=incrb, rf_disp_only=rfdo)
+        # a solution handed out by an earlier call on this solver object keeps its values
+        prev = _HELD.get(id(obj))
+        if prev is not None and prev[0] is obj:
+            sh.count("mon:fsolve-earlier-result-unmutated")
+            if any(not np.array_equal(np.asarray(getattr(prev[1], q)), prev[2][q],
+                                      equal_nan=True) for q in "dva"):
+                sh.violation("fsolve-earlier-result-unmutated", case, {}, tags)
+        if len(_HELD) > 64:
+            _HELD.clear()
+        _HELD[id(obj)] = (obj, out, {q: np.array(getattr(out, q), copy=True) for q in "dva"})
         sh.count("mon:fsolve-inputs-unmutated")
         if not np.array_equal(Fin, F) or not np.array_equal(fin, freq):
             sh.violation("fsolve-inputs-unmutated", case,
@@ -1484,7 +1501,7 @@ def run_shard(sh, params):
 
 
 MANDATORY_MON = [
-    "fsolve-inputs-unmutated", "su-oracle-d", "su-oracle-v", "su-oracle-a", "fd-oracle-d", "fd-oracle-v",
+    "fsolve-inputs-unmutated", "fsolve-earlier-result-unmutated", "su-oracle-d", "su-oracle-v", "su-oracle-a", "fd-oracle-d", "fd-oracle-v",
     "fd-oracle-a", "su-vs-fd-d", "su-vs-fd-v", "su-vs-fd-a", "residual-dyn",
     "residual-rf", "v-eq-iWd", "a-eq-mW2d", "rb-excluded-zero", "rf-excluded-zero",
     "rb-zero-hz-zero", "psd", "rms", "rms-of-reported-psd", "fd-0hz-linalgerror",
